@@ -65,6 +65,7 @@ func runC12(c c12Case) (*ev.Violation, string) {
 	}
 	nc := c.N
 	nc.Cfg.Focus = "C12"
+	nc.Cfg.MaxHeight += 2 // room for a height the input itself completes (a valid COMMIT that reaches quorum) plus the scripted round
 	r := sim.RunNPrefix(nc)
 	if r.W.Viol != nil {
 		return r.W.Viol, "prefix"
